@@ -4,6 +4,7 @@ import FimVerif.Proofs.Lemmas.C03Gateway
 import FimVerif.Proofs.Lemmas.C03Hist
 import FimVerif.Proofs.Lemmas.C03Iso
 import FimVerif.Proofs.Lemmas.C03Text
+import FimVerif.Proofs.Lemmas.C03Fail
 import FimVerif.Generated.Fields
 /-!
 # C03 — attribute value codecs are lossless, canonical and never mutate their input
@@ -849,5 +850,159 @@ theorem pathinfo_text_roundtrip (p : PathInfo) (h : PIDomain p) (hp : PayloadPla
     exact ero_roundtrip p h b hs j he
 
 example : PayloadPlain (.path (.arr [.str "n1", .str "n2"]) .null) := by simp [PayloadPlain, plain, plainL]
+
+
+/-! ### Failed calls: the state after an exception (`Model/CodecFail.lean`)
+
+A method called on an existing value object and REJECTED must leave a value of the codec's domain behind - for the validating
+setters the very same value.  The in-place semantics is tied to the code by the `tt.seq` / `jf.seq` / `pi.seq` / `mi.run`
+correspondence lines, which carry the state after every step, rejected ones too. -/
+
+/-- **a rejected `parse_from_string` leaves the tuple unchanged** (type, value, encoding): the method validates the type before it
+assigns (seeded C03-r4-3 swapped the two; the `tt.seq` correspondence lines compare the state after every rejected call) -/
+theorem ttuple_parse_failed_unchanged (types : List (List Char)) (t : TTuple) (s : List Char) (e : Err)
+    (h : ttParse types s = .error e) : ttStep types t s = (t, some e) := by
+  simp [ttStep, inPlace, h]
+
+/-- over ALL histories of `parse_from_string` calls, accepted or rejected: the type of the tuple stays one of the allowed types -/
+theorem ttuple_history_type_ok (types : List (List Char)) (ss : List (List Char)) (t : TTuple) (ht : t.type ∈ types) :
+    (ttRun types t ss).type ∈ types := by
+  induction ss generalizing t with
+  | nil => simpa [ttRun] using ht
+  | cons s ss ih =>
+    have := ih (ttStep types t s).1 (ttStep_type types t s ht)
+    simpa [ttRun] using this
+
+/-- ... hence whatever state a tuple was brought into through the constructor and any such history, its own encoding decodes: to the
+same type and the text of the value (the value itself when it is a str; cf. `ttuple_int_counterexample`) -/
+theorem ttuple_history_roundtrip (types : List (List Char)) (hc : ∀ ty ∈ types, ':' ∉ ty)
+    (ss : List (List Char)) (t : TTuple) (ht : t.type ∈ types) :
+    ttParse types (ttEncode (ttRun types t ss)) = .ok ⟨(ttRun types t ss).type, .str (ttRun types t ss).val.pyStr⟩ := by
+  have h := ttuple_history_type_ok types ss t ht
+  generalize ttRun types t ss = u at h
+  simp only [ttParse, ttOf, ttEncode, splitFirst_append u.type _ (hc _ h)]
+  simp [h]
+
+/-- **state after a rejected `_set_fields`**: the keywords before the rejected one were applied, nothing else -/
+theorem setfields_failed_prefix (c : ClassSpec) (valid) (fg : Bool) (kvs : List (String × JVal)) (x y : Fields) (e : Err)
+    (h : setFieldsIP c valid fg kvs x = (y, some e)) :
+    ∃ pre bad post, kvs = pre ++ bad :: post ∧ setFields c valid fg pre x = .ok y ∧ setFields c valid fg [bad] y = .error e := by
+  induction kvs generalizing x with
+  | nil => simp [setFieldsIP] at h
+  | cons kv rest ih =>
+    obtain ⟨k, v⟩ := kv
+    unfold setFieldsIP at h
+    cases hg : guardCheck c.guard v with
+    | error e' =>
+      simp only [hg] at h
+      injection h with h1 h2; injection h2 with h2; subst h1; subst h2
+      exact ⟨[], (k, v), rest, rfl, rfl, by simp [setFields, hg]⟩
+    | ok u =>
+      simp only [hg] at h
+      by_cases hk : (names c).contains k = true
+      · by_cases hv : valid k v = true
+        · rw [if_pos hk, if_pos hv] at h
+          obtain ⟨pre, bad, post, h1, h2, h3⟩ := ih _ h
+          exact ⟨(k, v) :: pre, bad, post, by simp [h1], by unfold setFields; simp only [hg]; rw [if_pos hk, if_pos hv]; exact h2, h3⟩
+        · rw [if_pos hk, if_neg hv] at h
+          injection h with h1 h2; injection h2 with h2; subst h1; subst h2
+          exact ⟨[], (k, v), rest, rfl, rfl, by unfold setFields; simp only [hg]; rw [if_pos hk, if_neg hv]⟩
+      · by_cases ha : (!c.strictFields && c.attrs.contains k) = true
+        · rw [if_neg hk, if_pos ha] at h
+          injection h with h1 h2; injection h2 with h2; subst h1; subst h2
+          exact ⟨[], (k, v), rest, rfl, rfl, by unfold setFields; simp only [hg]; rw [if_neg hk, if_pos ha]⟩
+        · cases fg
+          · rw [if_neg hk, if_neg ha] at h
+            simp only [Bool.false_eq_true, if_false] at h
+            injection h with h1 h2; injection h2 with h2; subst h1; subst h2
+            exact ⟨[], (k, v), rest, rfl, rfl, by unfold setFields; simp only [hg]; rw [if_neg hk, if_neg ha]; simp⟩
+          · rw [if_neg hk, if_neg ha] at h
+            simp only [if_true] at h
+            obtain ⟨pre, bad, post, h1, h2, h3⟩ := ih _ h
+            exact ⟨(k, v) :: pre, bad, post, by simp [h1], by unfold setFields; simp only [hg]; rw [if_neg hk, if_neg ha]; simp only [if_true]; exact h2, h3⟩
+
+/-- a rejected `_set_fields` with ONE keyword (what the library itself does on existing objects: gateway.py, component_catalog.py)
+leaves the instance unchanged -/
+theorem setfields_single_failed_unchanged (c : ClassSpec) (valid) (fg : Bool) (kv : String × JVal) (x y : Fields) (e : Err)
+    (h : setFieldsIP c valid fg [kv] x = (y, some e)) : y = x := by
+  obtain ⟨pre, bad, post, h1, h2, _⟩ := setfields_failed_prefix c valid fg [kv] x y e h
+  cases pre with
+  | nil => simp [setFields] at h2; exact h2.symm
+  | cons p pre => simp at h1
+
+/-- every state a history of `_set_fields` calls (accepted or rejected, any keywords) can bring a constructed instance into is one the
+constructor builds: the theorems about constructible values (`roundtrip_iff`, `lossless`, ...) apply to it -/
+theorem setfields_history_constructible (c : ClassSpec) (valid) (calls : List (List (String × JVal))) (x : Fields)
+    (hx : ∃ kw, construct c valid kw = .ok x) : ∃ kw, construct c valid kw = .ok (setFieldsRun c valid x calls) := by
+  induction calls generalizing x with
+  | nil => simpa [setFieldsRun] using hx
+  | cons kvs calls ih =>
+    have : ∃ kw, construct c valid kw = .ok (setFieldsIP c valid false kvs x).1 := by
+      obtain ⟨kw, hkw⟩ := hx
+      cases hs : setFields c valid false kvs x with
+      | ok y =>
+        rw [(setFieldsIP_refines c valid false kvs x).1 y hs]
+        exact ⟨kw ++ kvs, by unfold construct at hkw ⊢; rw [setFields_append c valid false kw kvs _ x hkw]; exact hs⟩
+      | error e =>
+        have h2 := (setFieldsIP_refines c valid false kvs x).2 e hs
+        obtain ⟨pre, bad, post, _, h3, _⟩ := setfields_failed_prefix c valid false kvs x (setFieldsIP c valid false kvs x).1 e
+          (by rw [← h2])
+        exact ⟨kw ++ pre, by unfold construct at hkw ⊢; rw [setFields_append c valid false kw pre _ x hkw]; exact h3⟩
+    have := ih _ this
+    simpa [setFieldsRun] using this
+
+/-- concrete witness (the corpus case `corpus/C03/failed_set_fields_partial.json` replays it on the implementation):
+`Capacities(core=1)._set_fields(ram=5, disk=-1)` raises AssertionError and leaves `ram = 5` behind -/
+theorem setfields_failed_unchanged_counterexample :
+    let x := setF (defaults Gen.Fields.capacities) "core" (.int 1)
+    let r := setFieldsIP Gen.Fields.capacities (fun _ _ => true) false [("ram", .int 5), ("disk", .int (-1))] x
+    r.2 = some "assertion" ∧ r.1 "ram" = .int 5 ∧ x "ram" = .int 0 := by decide
+
+/-- a rejected `PathInfo.set` / `ERO.set` (payload of the wrong kind) leaves the object unchanged -/
+theorem pathinfo_set_failed_unchanged (p : PathInfo) (pl : Payload) (e : Err) (h : piSet p pl = .error e) :
+    piStep p pl = (p, some e) := by simp [piStep, inPlace, h]
+
+/-- after ANY history of `set` calls (accepted or rejected) a PathInfo / ERO is still a value of the codec's domain: `to_json`
+is total on it and it reads back (`pathinfo_roundtrip`) -/
+theorem pathinfo_history_domain (pls : List Payload) (p : PathInfo) (h : PIDomain p) :
+    PIDomain (piRun p pls) ∧ (∃ j, pathInfoEncode (piRun p pls) = .ok j) ∧ (∃ j, eroEncode (piRun p pls) = .ok j) := by
+  have hd : PIDomain (piRun p pls) := by
+    induction pls generalizing p with
+    | nil => simpa [piRun] using h
+    | cons pl pls ih => simpa [piRun] using ih _ (piStep_domain p pl h)
+  exact ⟨hd, pathinfo_encode_total _ hd⟩
+
+/-- a rejected modifier (finalized record, absent name) leaves the record unchanged -/
+theorem maintenance_failed_unchanged (m : MInfo) (op : MOp) (e : Err) (h : miApply m op = .error e) :
+    miStep m op = (m, some e) := by simp [miStep, inPlace, h]
+
+/-- lifted to histories: whatever sequence of modifiers is tried on a finalized record, it stays the record it was -/
+theorem maintenance_history_finalized (ops : List MOp) (m : MInfo) (h : m.lock = true) : miRunOps m ops = m := by
+  induction ops with
+  | nil => rfl
+  | cons op ops ih =>
+    have : (miStep m op).1 = m := by
+      obtain ⟨nodes, lock⟩ := m
+      simp only at h; subst h
+      cases op <;> simp [miStep, inPlace, miApply, MInfo.add, MInfo.rem, MInfo.pop, MInfo.finalize, Except.map]
+    simp only [miRunOps, List.foldl_cons, this]
+    exact ih
+
+/-- non-vacuity: the generated type lists are colon-free; a history with rejected calls (`vlans:200`, no separator) in between -/
+example : (∀ ty ∈ labelTypes, ':' ∉ ty) ∧ "vlan".toList ∈ labelTypes ∧
+    ttRun labelTypes ⟨"vlan".toList, .str "100"⟩ ["vlans:200".toList, "mac:aa".toList, "nocolon".toList] = ⟨"mac".toList, .str "aa"⟩ ∧
+    ttStep labelTypes ⟨"vlan".toList, .str "100"⟩ "vlans:200".toList = (⟨"vlan".toList, .str "100"⟩, some "tuple") := by decide
+
+example : PIDomain { type := some .path, payload := .unset } ∧
+    piStep { type := some .path, payload := .path (.arr [.str "a"]) .null } (.raw (.str "g")) =
+      ({ type := some .path, payload := .path (.arr [.str "a"]) .null }, some "assertion") := by
+  constructor
+  · simp [PIDomain]
+  · rfl
+
+example : ∃ kw, construct Gen.Fields.capacities (fun _ _ => true) kw = .ok (setF (defaults Gen.Fields.capacities) "core" (.int 1)) :=
+  ⟨[("core", .int 1)], by rfl⟩
+
+example : (MInfo.empty.finalize).lock = true := rfl
 
 end FimVerif.C03
